@@ -107,6 +107,7 @@ pub fn install_panic_hook() {
 }
 
 pub fn run_family(f: FamilyFn, ch: Chooser, ctx: &RunCtx) -> RunOut {
+    crate::chooser::DRAWN.with(|d| d.borrow_mut().clear());
     let r = catch_unwind(AssertUnwindSafe(|| f(ch, ctx)));
     match r {
         Ok(o) => o,
@@ -122,7 +123,7 @@ pub fn run_family(f: FamilyFn, ch: Chooser, ctx: &RunCtx) -> RunOut {
                 sim_ns: 0,
                 hit_limit: None,
                 panic: Some(msg),
-                choices: Vec::new(),
+                choices: crate::chooser::DRAWN.with(|d| std::mem::take(&mut *d.borrow_mut())),
                 log: Vec::new(),
                 trace: Vec::new(),
                 stats: BTreeMap::new(),
@@ -280,6 +281,7 @@ pub fn run_check(spec: &PropSpec, tier: &str, verif_seed: u64, verif_dir: &str) 
     let next = AtomicU64::new(0);
     let stop = AtomicBool::new(false);
     let agg = Mutex::new(Agg::default());
+    let trace_worlds = std::env::var("VERIF_TRACE_WORLDS").is_ok();
     let threads: usize = std::env::var("VERIF_THREADS").ok().and_then(|s| s.parse().ok()).unwrap_or(16);
     std::thread::scope(|s| {
         for _ in 0..threads {
@@ -301,6 +303,9 @@ pub fn run_check(spec: &PropSpec, tier: &str, verif_seed: u64, verif_dir: &str) 
                     }
                     let fi = fam_of(i);
                     let seed = seed_for(verif_seed, spec.id, fi, i);
+                    if trace_worlds {
+                        eprintln!("WORLD i={} family={} seed={}", i, spec.families[fi].name, seed);
+                    }
                     let o = run_family(spec.families[fi].f, Chooser::generate(seed), &ctx);
                     local.absorb(&o, fi);
                     if let Some((kind, detail)) = first_kind(&o, spec) {
@@ -575,6 +580,7 @@ pub fn replay_file(specs: &[PropSpec], path: &str) -> i32 {
     for l in &o.log {
         println!("{}", l);
     }
+    println!("config: {}", o.config);
     match first_kind(&o, spec) {
         Some((k, d)) => {
             println!("reproduced kind={} :: {}", k, d);
